@@ -4,6 +4,7 @@ package main
 // counter, for the complete vocabulary of the pinned parser in every position.
 
 import (
+	"io"
 	"context"
 	"encoding/json"
 	"fmt"
@@ -266,7 +267,12 @@ func cmdPlan(args []string) {
 		reg := prometheus.NewRegistry()
 		eo := promOpts(EngineCfg{})
 		eo.Reg = reg
-		return engPair{engine.New(engine.Opts{EngineOpts: eo, DisableFallback: !fb}), reg}
+		// the engine without fallback also explains its plans (Opts.DebugWriter): creation must not depend on it
+		var dbg io.Writer
+		if !fb {
+			dbg = io.Discard
+		}
+		return engPair{engine.New(engine.Opts{EngineOpts: eo, DisableFallback: !fb, DebugWriter: dbg}), reg}
 	}
 	engOn, engOff := mkEng(true), mkEng(false)
 	// a distributed engine (fallback enabled) whose remote engines have the fallback disabled: what a
@@ -277,7 +283,7 @@ func cmdPlan(args []string) {
 		eo.Reg = reg
 		ropts := engine.Opts{EngineOpts: promOpts(EngineCfg{}), DisableFallback: true}
 		remotes := []api.RemoteEngine{engine.NewLocalEngine(ropts, store), engine.NewLocalEngine(ropts, NewStore(nil))}
-		return engPair{engine.NewDistributedEngine(engine.Opts{EngineOpts: eo}, api.NewStaticEndpoints(remotes)), reg}
+		return engPair{engine.NewDistributedEngine(engine.Opts{EngineOpts: eo, DebugWriter: io.Discard}, api.NewStaticEndpoints(remotes)), reg}
 	}
 	engDist := mkDist()
 	ref := promql.NewEngine(promOpts(EngineCfg{}))
@@ -293,11 +299,20 @@ func cmdPlan(args []string) {
 				f0, t0 := counterValues(ep.reg)
 				var q promql.Query
 				var err error
-				if rng {
-					q, err = ep.eng.NewRangeQuery(store, nil, qs, start, end, step)
-				} else {
-					q, err = ep.eng.NewInstantQuery(store, nil, qs, end)
-				}
+				panicked := ""
+				func() {
+					defer func() {
+						if e := recover(); e != nil {
+							panicked = fmt.Sprint(e)
+							err = fmt.Errorf("panic: %v", e)
+						}
+					}()
+					if rng {
+						q, err = ep.eng.NewRangeQuery(store, nil, qs, start, end, step)
+					} else {
+						q, err = ep.eng.NewInstantQuery(store, nil, qs, end)
+					}
+				}()
 				f1, t1 := counterValues(ep.reg)
 				pc := planCase{ID: len(cases), Query: qs, Range: rng, Fallback: fb, Dist: k == 2, Outcome: classifyCreate(q, err), DFalse: f1 - f0, DTrue: t1 - t0}
 				if err != nil {
@@ -376,6 +391,8 @@ func cmdPlan(args []string) {
 					pc.RefOK = rerr == nil
 					want := 1
 					switch {
+					case panicked != "":
+						pc.Oracle = "a panic escaped the creation of the query: " + trunc(panicked, 200)
 					case fb && pc.RefOK && pc.Outcome != "Native" && pc.Outcome != "Fallback":
 						pc.Oracle = "fallback enabled, reference accepts the query, engine rejects it: " + pc.ErrText
 					case !fb && pc.Outcome != "Native" && pc.Outcome != "ErrUnsupported" && pc.RefOK:
